@@ -67,6 +67,15 @@ func Reset() {
 	Trace = nil
 }
 
+// Rewind restarts the tape for another attempt of a schedule-dependent replay.
+func Rewind() {
+	mu.Lock()
+	defer mu.Unlock()
+	pos = 0
+	Failures = nil
+	Trace = nil
+}
+
 func next(name, kind string) (string, bool) {
 	mu.Lock()
 	defer mu.Unlock()
@@ -197,7 +206,7 @@ func RunSpawned(match string) int {
 }
 func DropSpawned(match string) int { return 0 }
 func NumParked(match string) int   { return 0 }
-func WaitQuiescent()               {}
+func WaitQuiescent()               { time.Sleep(150 * time.Millisecond) } // natively: give the goroutines time to run
 func NumBlocked(match string) int  { return 0 }
 func NumLive(match string) int     { return 0 }
 func MutexHeld(m *sync.Mutex) bool {
